@@ -49,7 +49,7 @@ var errInjected = errors.New("injected read failure")
 // ---------------------------------------------------------------- cases
 
 type Ev struct {
-	Kind byte // 'D', 'Z', 'F'
+	Kind byte // 'D' data, 'Z' 0-byte read, 'F' injected error, 'E' (0, io.EOF) once -- the reader goes on afterwards
 	Data []byte
 	Gen  string // "<len>:<seed>" when Data is pseudo-random data regenerated from a seed (big blobs)
 }
@@ -114,7 +114,7 @@ func decScript(s string) []Ev {
 	var out []Ev
 	for _, t := range strings.Split(s, ",") {
 		switch {
-		case t == "Z" || t == "F":
+		case t == "Z" || t == "F" || t == "E":
 			out = append(out, Ev{Kind: t[0]})
 		case strings.HasPrefix(t, "R"):
 			f := strings.SplitN(t[1:], ":", 2)
@@ -143,11 +143,25 @@ func streamOf(s []Ev) []byte {
 	return out
 }
 
-// bytes deliverable before the first injected failure
+// the bytes the reader delivers before it first answers io.EOF
+func beforeEOF(s []Ev) []byte {
+	var out []byte
+	for _, e := range s {
+		if e.Kind == 'E' {
+			break
+		}
+		if e.Kind == 'D' {
+			out = append(out, e.Data...)
+		}
+	}
+	return out
+}
+
+// bytes deliverable before the first injected failure or EOF
 func availOf(s []Ev) int {
 	n := 0
 	for _, e := range s {
-		if e.Kind == 'F' {
+		if e.Kind == 'F' || e.Kind == 'E' {
 			break
 		}
 		n += len(e.Data)
@@ -226,7 +240,7 @@ func (c *Case) hashes() string {
 	var out []string
 	for _, p := range c.Pushes {
 		st := streamOf(p.Script)
-		lens := map[int]bool{0: true, len(st): true}
+		lens := map[int]bool{0: true, len(st): true, len(beforeEOF(p.Script)): true}
 		if c.Op == "PF" {
 			r := newReader(p)
 			for _, k := range p.Ks {
@@ -268,14 +282,18 @@ func (c *Case) hashes() string {
 func (c *Case) body() string {
 	p := c.Pushes[0]
 	switch c.Op {
-	case "RA":
-		return fmt.Sprintf("RA %s %d %s %s %s", common.Hex(p.DG), p.SZ, b2s(p.Comb), c.Lim, encScript(p.Script))
+	case "RA", "FA":
+		return fmt.Sprintf("%s %s %d %s %s %s", c.Op, common.Hex(p.DG), p.SZ, b2s(p.Comb), c.Lim, encScript(p.Script))
 	case "CB":
 		return fmt.Sprintf("CB %d %s %d %s %s %s", c.BufSz, common.Hex(p.DG), p.SZ, b2s(p.Comb), c.Lim, encScript(p.Script))
 	case "CW":
 		return fmt.Sprintf("CW %d %s %d %s %s %s %s %d", c.BufSz, common.Hex(p.DG), p.SZ, b2s(p.Comb), c.Lim, encScript(p.Script), c.WMode, c.WAt)
 	case "VR":
-		return fmt.Sprintf("VR %s %d %s %s %s", common.Hex(p.DG), p.SZ, b2s(p.Comb), encScript(p.Script), strings.Join(c.Ops, ","))
+		l := fmt.Sprintf("VR %s %d %s %s %s", common.Hex(p.DG), p.SZ, b2s(p.Comb), encScript(p.Script), strings.Join(c.Ops, ","))
+		if c.Lim != "" && c.Lim != "-" {
+			l += " " + c.Lim
+		}
+		return l
 	case "PF":
 		var sb strings.Builder
 		fmt.Fprintf(&sb, "PF %s %d", c.Kind, len(c.Pushes))
@@ -313,10 +331,13 @@ func (c *Case) line() string {
 	if c.huge() { // not judged by the model (oracle only)
 		return "HUGE " + b
 	}
-	if c.Op == "SX" || c.Op == "CW" { // oracle only
+	if c.Op == "SX" { // oracle only
 		return "SX " + b
 	}
 	l := b[:i] + " " + c.hashes() + b[i:]
+	if c.Op == "FA" { // content.FetchAll over a scripted fetcher = ReadAll of the fetched stream
+		l = "RA" + l[2:]
+	}
 	if c.Obs != "" {
 		l += " OBS " + c.Obs
 	}
@@ -335,7 +356,7 @@ func decodeBody(body string) *Case {
 	f := strings.Fields(body)
 	c := &Case{Op: f[0]}
 	switch f[0] {
-	case "RA":
+	case "RA", "FA":
 		c.Lim = f[4]
 		c.Pushes = []Push{{DG: common.UnHex(f[1]), SZ: atoi(f[2]), Comb: f[3] == "1", Script: decScript(f[5])}}
 	case "CB":
@@ -350,6 +371,10 @@ func decodeBody(body string) *Case {
 	case "VR":
 		c.Pushes = []Push{{DG: common.UnHex(f[1]), SZ: atoi(f[2]), Comb: f[3] == "1", Script: decScript(f[4])}}
 		c.Ops = strings.Split(f[5], ",")
+		c.Lim = "-"
+		if len(f) > 6 {
+			c.Lim = f[6]
+		}
 	case "PF":
 		c.Kind = f[1]
 		n := int(atoi(f[2]))
@@ -384,15 +409,25 @@ type scriptReader struct {
 	comb      bool
 	delivered int
 	yield     bool
+	// in-flight observation: block before the holdCall-th Read (-1: never)
+	holdCall int
+	calls    int
+	reached  chan struct{}
+	release  chan struct{}
 }
 
 func newReader(p Push) *scriptReader {
 	evs := make([]Ev, len(p.Script))
 	copy(evs, p.Script)
-	return &scriptReader{evs: evs, comb: p.Comb}
+	return &scriptReader{evs: evs, comb: p.Comb, holdCall: -1}
 }
 
 func (r *scriptReader) Read(p []byte) (int, error) {
+	if r.reached != nil && r.calls == r.holdCall {
+		close(r.reached)
+		<-r.release
+	}
+	r.calls++
 	if r.yield {
 		runtime.Gosched()
 	}
@@ -407,6 +442,9 @@ func (r *scriptReader) Read(p []byte) (int, error) {
 	case 'F':
 		r.evs = r.evs[1:]
 		return 0, errInjected
+	case 'E':
+		r.evs = r.evs[1:]
+		return 0, io.EOF
 	}
 	if len(e.Data) <= len(p) {
 		n := copy(p, e.Data)
@@ -419,6 +457,10 @@ func (r *scriptReader) Read(p []byte) (int, error) {
 			if r.evs[0].Kind == 'F' {
 				r.evs = r.evs[1:]
 				return n, errInjected
+			}
+			if r.evs[0].Kind == 'E' {
+				r.evs = r.evs[1:]
+				return n, io.EOF
 			}
 		}
 		return n, nil
@@ -444,6 +486,14 @@ func errEnum(err error) string {
 		return "OK"
 	case errors.Is(err, errInjected):
 		return "INJECTED"
+	case errors.Is(err, errWrite):
+		return "WRITE"
+	case errors.Is(err, io.ErrShortWrite):
+		return "SHORT_WRITE"
+	case errors.Is(err, file.ErrPathTraversalDisallowed):
+		return "TRAVERSAL"
+	case errors.Is(err, file.ErrOverwriteDisallowed):
+		return "OVERWRITE"
 	case errors.Is(err, content.ErrInvalidDescriptorSize):
 		return "INVALID_SIZE"
 	case errors.Is(err, content.ErrTrailingData):
@@ -484,7 +534,7 @@ var okDigest = regexp.MustCompile(`^(sha256:[a-f0-9]{64}|sha384:[a-f0-9]{96}|sha
 // the descriptor names"; "" when a Push of it may succeed.  limited: the reader is
 // cut at Size (LimitedStorage), so only the first Size bytes are looked at.
 func whyBad(p Push) string {
-	st := streamOf(p.Script)
+	st := beforeEOF(p.Script)
 	switch {
 	case p.SZ < 0:
 		return "negative-size"
@@ -545,11 +595,18 @@ func runRA(id string, c *Case) string {
 	r := newReader(p)
 	var b []byte
 	var err error
-	if pv := guard(func() { b, err = content.ReadAll(source(r, c.Lim), descOf(p)) }); pv != nil {
+	read := func() { b, err = content.ReadAll(source(r, c.Lim), descOf(p)) }
+	if c.Op == "FA" {
+		fetcher := content.FetcherFunc(func(context.Context, ocispec.Descriptor) (io.ReadCloser, error) {
+			return io.NopCloser(source(r, c.Lim)), nil
+		})
+		read = func() { b, err = content.FetchAll(ctx, fetcher, descOf(p)) }
+	}
+	if pv := guard(read); pv != nil {
 		fail(id, "size-panic", fmt.Sprintf("ReadAll panicked for Size %d: %v", p.SZ, pv), c)
 		return "PANIC"
 	}
-	st := streamOf(p.Script)
+	st := beforeEOF(p.Script)
 	if err == nil {
 		switch {
 		case !matches(b, p.DG, p.SZ):
@@ -576,7 +633,7 @@ func runCB(id string, c *Case) string {
 	r := newReader(p)
 	var out bytes.Buffer
 	err := hooks.CopyBuffer(plainWriter{&out}, source(r, c.Lim), make([]byte, c.BufSz), descOf(p))
-	st := streamOf(p.Script)
+	st := beforeEOF(p.Script)
 	if err == nil {
 		switch {
 		case p.SZ < 0:
@@ -632,16 +689,19 @@ func runCW(id string, c *Case) string {
 		}
 	}
 	run.Count("cw:" + c.WMode + ":" + map[bool]string{true: "fault", false: "nofault"}[w.fault])
-	return "-"
+	return fmt.Sprintf("%s %d W%s", errEnum(err), r.delivered, dstr(w.buf.Bytes()))
 }
 
 func runVR(id string, c *Case) string {
 	p := c.Pushes[0]
 	r := newReader(p)
-	vr := content.NewVerifyReader(r, descOf(p))
+	if c.Lim == "" {
+		c.Lim = "-"
+	}
+	vr := content.NewVerifyReader(source(r, c.Lim), descOf(p))
 	var got []byte
 	var outs []string
-	st := streamOf(p.Script)
+	st := beforeEOF(p.Script)
 	for _, op := range c.Ops {
 		if op == "v" {
 			err := vr.Verify()
@@ -651,7 +711,7 @@ func runVR(id string, c *Case) string {
 					fail(id, "negative-size", fmt.Sprintf("Verify accepted Size %d", p.SZ), c)
 				case !matches(got, p.DG, p.SZ):
 					fail(id, "verify-accepted-bad", fmt.Sprintf("Verify() = nil after %d bytes for %s size %d", len(got), p.DG, p.SZ), c)
-				case !bytes.Equal(st, got):
+				case c.Lim == "-" && !bytes.Equal(st, got):
 					fail(id, "verify-trailing-accepted", fmt.Sprintf("reader holds %d bytes, %d were read, Verify() = nil", len(st), len(got)), c)
 				}
 			}
@@ -868,7 +928,57 @@ func runST(id string, c *Case) string {
 		lBefore := joinListing(e.listing())
 		var err, ferr error
 		var fb []byte
-		if pv := guard(func() { err = e.st.Push(ctx, d, newReader(p)) }); pv != nil {
+		// in-flight observation (oracle only, deterministic): the push is stopped before one of
+		// its first Reads; what the store shows for this descriptor must be what it showed before
+		rd := newReader(p)
+		if hold := (len(p.Script) + int(p.SZ&3) + i) % 4; hold < 3 {
+			rd.holdCall, rd.reached, rd.release = hold, make(chan struct{}), make(chan struct{})
+		}
+		qd := d // file store: a query under the name being pushed waits for the push; ask by digest
+		if strings.HasPrefix(c.Kind, "file") && p.Name != "" {
+			qd = ocispec.Descriptor{MediaType: d.MediaType, Digest: d.Digest, Size: d.Size}
+		}
+		_, qxBefore := existsStr(e.st, qd)
+		qrawBefore, qerrBefore := rawFetch(e.st, qd)
+		pushDone := make(chan any, 1)
+		go func() { pushDone <- guard(func() { err = e.st.Push(ctx, d, rd) }) }()
+		var pv any
+		finished := false
+		if rd.reached != nil {
+			select {
+			case <-rd.reached:
+				tagf := fmt.Sprintf("push %d/%d on %s, stopped before Read #%d: ", i+1, len(c.Pushes), c.Kind, rd.holdCall)
+				_, qx := existsStr(e.st, qd)
+				qraw, qerr := rawFetch(e.st, qd)
+				if qx != qxBefore {
+					vf("inflight-visible", tagf+fmt.Sprintf("Exists changed from %v to %v while the content is still being read", qxBefore, qx))
+				}
+				if (qerr == nil) != (qerrBefore == nil) || (qerr == nil && !bytes.Equal(qraw, qrawBefore)) {
+					vf("inflight-fetchable", tagf+fmt.Sprintf("Fetch changed while the content is still being read (%d bytes, err=%v)", len(qraw), qerr))
+				}
+				if !strings.HasPrefix(c.Kind, "file") { // (the working directory legitimately holds the partial file)
+					if l := joinListing(e.listing()); l != lBefore {
+						fail(id, "inflight-stored", tagf+"the stored blobs changed while the content is still being read: "+lBefore+" -> "+l, c)
+					}
+				}
+				run.Count("judged:inflight")
+				close(rd.release)
+			case pv = <-pushDone:
+				finished = true
+			case <-time.After(20 * time.Second):
+				fail(id, "push-wedged", fmt.Sprintf("push %d on %s neither read nor returned within 20s", i+1, c.Kind), c)
+				return "WEDGED"
+			}
+		}
+		if !finished {
+			select {
+			case pv = <-pushDone:
+			case <-time.After(20 * time.Second):
+				fail(id, "push-wedged", fmt.Sprintf("push %d on %s did not return within 20s", i+1, c.Kind), c)
+				return "WEDGED"
+			}
+		}
+		if pv != nil {
 			fail(id, "size-panic", fmt.Sprintf("push %d on %s panicked for Size %d: %v", i+1, c.Kind, p.SZ, pv), c)
 			return "PANIC"
 		}
@@ -885,7 +995,7 @@ func runST(id string, c *Case) string {
 		obs = append(obs, fmt.Sprintf("%s X%s F%s", res, xs, fobs))
 
 		// ---- oracle
-		st := streamOf(p.Script)
+		st := beforeEOF(p.Script)
 		why := whyBad(p)
 		tag := fmt.Sprintf("push %d/%d on %s: ", i+1, len(c.Pushes), c.Kind)
 		raw, rerr := rawFetch(e.st, d)
@@ -971,7 +1081,10 @@ func runST(id string, c *Case) string {
 		}
 	}
 	final := "B=" + joinListing(e.listing())
-	if c.Kind == "oci" || strings.HasPrefix(c.Kind, "olim") {
+	if c.Kind == "memstore" { // memory.Store has no listing
+		final = "B=?"
+	}
+	if c.Kind == "oci" || c.Kind == "ocistore" || strings.HasPrefix(c.Kind, "olim") {
 		final += fmt.Sprintf(" I=%d", e.ingest())
 	}
 	// final sweep: every descriptor of the history is queried again on the final state
@@ -998,6 +1111,8 @@ func runST(id string, c *Case) string {
 }
 
 // ---------------------------------------------------------------- concurrent pushes of one digest (oracle only)
+
+var ccRetry bool
 
 func runCC(id string, c *Case) string {
 	e := newEnv(c.Kind)
@@ -1041,7 +1156,23 @@ func runCC(id string, c *Case) string {
 			errs[i] = e.st.Push(ctx, descOf(c.Pushes[i]), r)
 		}(i)
 	}
-	wg.Wait()
+	// no push may wedge: a watchdog turns a blocked race into a verdict (re-confirmed once)
+	doneCh := make(chan struct{})
+	go func() { wg.Wait(); close(doneCh) }()
+	select {
+	case <-doneCh:
+	case <-time.After(20 * time.Second):
+		close(stop)
+		if !ccRetry {
+			ccRetry = true
+			run.Count("cc:watchdog-retry")
+			out := runCC(id, c)
+			ccRetry = false
+			return out
+		}
+		fail(id, "push-wedged", fmt.Sprintf("concurrent pushes on %s did not return within 20s (twice)", c.Kind), c)
+		return "-"
+	}
 	close(stop)
 	obsWG.Wait()
 	if badSeen != "" {
@@ -1056,7 +1187,7 @@ func runCC(id string, c *Case) string {
 			if why != "" {
 				fail(id, "concurrent-bad-accepted", fmt.Sprintf("concurrent push %d (%s) returned nil", i, why), c)
 			}
-		} else if why == "" && len(streamOf(p.Script)) == int(p.SZ) && availOf(p.Script) == len(streamOf(p.Script)) &&
+		} else if why == "" && len(beforeEOF(p.Script)) == int(p.SZ) && availOf(p.Script) == len(beforeEOF(p.Script)) &&
 			!hasFail(p.Script) && res != "EXISTS" && res != "DUP_NAME" {
 			fail(id, "concurrent-good-rejected", fmt.Sprintf("concurrent good push %d failed with %s", i, res), c)
 		}
@@ -1081,7 +1212,7 @@ func runCC(id string, c *Case) string {
 			fail(id, "concurrent-listing", "stored blobs after concurrent pushes: "+joinListing(l), c)
 		}
 	}
-	if (c.Kind == "oci" || c.Kind == "mem" || strings.HasPrefix(c.Kind, "lim")) && len(c.Pushes) <= 3 && len(want) <= 120 {
+	if (c.Kind == "oci" || c.Kind == "ocistore" || c.Kind == "mem" || c.Kind == "file" || strings.HasPrefix(c.Kind, "lim")) && len(c.Pushes) <= 3 && len(want) <= 120 {
 		// trace correspondence: the observed outcome must be a terminal outcome of the
 		// model's transition system (the model answers MEMBER)
 		res := make([]string, len(errs))
@@ -1115,7 +1246,7 @@ func runPXw(id string, c *Case, limit time.Duration, retry bool) string {
 	p := c.Pushes[0]
 	d := descOf(p)
 	lim, limited := limitOf(c.Kind)
-	trailing := int64(len(streamOf(p.Script))) > p.SZ
+	trailing := int64(len(beforeEOF(p.Script))) > p.SZ
 	if pxBlocked && limited && trailing {
 		run.Count("px:skipped-after-blocked")
 		return "-"
@@ -1217,6 +1348,7 @@ func runPFw(id string, c *Case, limit time.Duration, retry bool) string {
 		px.StopCaching = p.Stop
 		before := hooks.MemoryEntries(cache)
 		ch := make(chan stepres, 1)
+		inflightBad := ""
 		go func() {
 			var sb strings.Builder
 			var handed []byte
@@ -1230,6 +1362,20 @@ func runPFw(id string, c *Case, limit time.Duration, retry bool) string {
 				n, e := rc.Read(buf)
 				handed = append(handed, buf[:n]...)
 				fmt.Fprintf(&sb, "r=%s/%s ", dstr(buf[:n]), errEnum(e))
+			}
+			// in flight: an unlimited cache push cannot finish before Close (it has not seen
+			// EOF yet), so the cache must not show the descriptor now unless it did before
+			if _, limited := limitOf(c.Kind); !limited && !p.Stop {
+				wasThere := false
+				for _, e := range before {
+					if e.MediaType == p.MT && e.Digest == p.DG && e.Size == p.SZ {
+						wasThere = true
+					}
+				}
+				if x, _ := cache.Exists(ctx, d); x != wasThere {
+					inflightBad = fmt.Sprintf("before Close the cache answers Exists=%v for a descriptor it %s before the fetch", x, map[bool]string{true: "held", false: "did not hold"}[wasThere])
+				}
+				run.Count("judged:proxy-inflight")
 			}
 			fmt.Fprintf(&sb, "c=%s |", errEnum(rc.Close()))
 			ch <- stepres{obs: sb.String(), handed: handed}
@@ -1248,6 +1394,9 @@ func runPFw(id string, c *Case, limit time.Duration, retry bool) string {
 		obs = append(obs, r.obs)
 		// ---- oracle (independent of the model)
 		tag := fmt.Sprintf("proxy fetch %d/%d (%s): ", i+1, len(c.Pushes), c.Kind)
+		if inflightBad != "" {
+			fail(id, "proxy-inflight-visible", tag+inflightBad, c)
+		}
 		st := streamOf(p.Script)
 		var cachedBefore []byte
 		hit := false
@@ -1286,7 +1435,7 @@ func runCase(c *Case) {
 	id := run.NewID()
 	var obs string
 	switch c.Op {
-	case "RA":
+	case "RA", "FA":
 		obs = runRA(id, c)
 	case "CB":
 		obs = runCB(id, c)
@@ -1325,13 +1474,19 @@ func runCase(c *Case) {
 		if p.SZ > hugeSize {
 			run.Count("gen:huge-size")
 		}
+		for _, e := range p.Script {
+			if e.Kind == 'E' {
+				run.Count("gen:reader-continues-after-eof")
+				break
+			}
+		}
 		if len(streamOf(p.Script)) > 1<<20 {
 			run.Count("gen:blob>1MiB")
 		}
 		w := whyBad(p)
 		if w == "" {
 			w = "good"
-			if len(streamOf(p.Script)) > int(p.SZ) {
+			if len(beforeEOF(p.Script)) > int(p.SZ) {
 				w = "good+trailing"
 			}
 		}
@@ -1485,7 +1640,15 @@ func genPush(r *common.Rand, data []byte) Push {
 		}
 		p.Script = chunk(r, stream[:cut], zeros)
 	case k < 13: // trailing bytes
-		p.Script = chunk(r, append(append([]byte(nil), stream...), randBytes(r, 1+r.Intn(3))...), zeros)
+		if r.Chance(1, 2) { // ... that come right after a 0-byte read at offset Size
+			p.Script = append(chunk(r, stream, zeros), Ev{Kind: 'Z'})
+			if r.Chance(1, 3) {
+				p.Script = append(p.Script, Ev{Kind: 'Z'})
+			}
+			p.Script = append(p.Script, Ev{Kind: 'D', Data: randBytes(r, 1+r.Intn(3))})
+		} else {
+			p.Script = chunk(r, append(append([]byte(nil), stream...), randBytes(r, 1+r.Intn(3))...), zeros)
+		}
 	case k < 15: // one byte flipped
 		bad := append([]byte(nil), stream...)
 		if len(bad) > 0 {
@@ -1511,12 +1674,23 @@ func genPush(r *common.Rand, data []byte) Push {
 	default: // first Size bytes right, then a different tail; or a prefix-only match
 		p.Script = chunk(r, append(append([]byte(nil), stream...), stream...), zeros)
 	}
+	if r.Chance(1, 7) { // a reader for which io.EOF is not final: (0, EOF) once, then it goes on
+		at := r.Intn(len(p.Script) + 1)
+		evs := append(p.Script[:at:at], append([]Ev{{Kind: 'E'}}, p.Script[at:]...)...)
+		if r.Chance(1, 3) {
+			evs = append(evs, Ev{Kind: 'D', Data: randBytes(r, 1+r.Intn(3))})
+		}
+		p.Script = evs
+	}
 	return p
 }
 
 func genName(r *common.Rand) string {
+	if r.Chance(1, 12) { // leaves the working directory: refused by resolveWritePath
+		return common.Pick(r, []string{"../x", "a/../../y", "/c05-outside/x", "sub/../../../z", ".."})
+	}
 	if r.Chance(1, 4) { // a second spelling of one of the plain names (same resolved path)
-		return common.Pick(r, []string{"./a", "x/../a", "sub/../b", "./data.bin", "./x1", "a/.", "sub/./f", "sub/f"})
+		return common.Pick(r, []string{"./a", "x/../a", "sub/../b", "./data.bin", "./x1", "a/.", "sub/./f", "sub/f", "sub//f", "a/", "./sub/../sub/f", "q/r/../../a"})
 	}
 	return common.Pick(r, []string{"a", "b", "data.bin", "x1", "layer.tar", "sub/f"})
 }
@@ -1569,7 +1743,9 @@ func genSingle(r *common.Rand, op string) *Case {
 	case "CB":
 		c.BufSz = common.Pick(r, []int{1, 1, 2, 3, 5, 8, 16, 64, 4096, 100000})
 	case "VR":
-		c.Lim = "-"
+		if c.Lim != "-" && r.Chance(1, 2) { // half of the limited ones stay limited
+			c.Lim = "-"
+		}
 		n := 1 + r.Intn(8)
 		for i := 0; i < n; i++ {
 			if r.Chance(1, 4) {
@@ -1641,7 +1817,7 @@ func genOption(r *common.Rand) *Case {
 		base = "file"
 	}
 	c := genHistory(r, base)
-	c.Op, c.Kind = "SX", kind
+	c.Op, c.Kind = "ST", kind // judged by the model as well (options / wrappers are modelled)
 	return c
 }
 
@@ -1706,8 +1882,11 @@ func genBig(r *common.Rand, kind string) *Case {
 func genConcurrent(r *common.Rand, kind string) *Case {
 	size := 1 + r.Intn(3000)
 	n := 1 + r.Intn(4)
-	if (kind == "oci" || kind == "mem" || strings.HasPrefix(kind, "lim")) && r.Chance(2, 3) { // small enough for the model's exhaustive interleaving
-		n = 1 + r.Intn(2)
+	if (kind == "oci" || kind == "ocistore" || kind == "mem" || kind == "file" || strings.HasPrefix(kind, "lim")) && r.Chance(2, 3) { // small enough for the model's exhaustive interleaving
+		n = 1 // two racers; three (up to 1680 interleavings in the model) in a quarter of the cases
+		if r.Chance(1, 4) {
+			n = 2
+		}
 		size = 1 + r.Intn(120)
 	}
 	data := randBytes(r, size)
@@ -1777,6 +1956,58 @@ func exhaustive(maxLen int) {
 	}
 }
 
+// small-scope exhaustive push histories: every pair of pushes drawn from a small universe
+// of (descriptor, reader) variants over two payloads, on every modelled store kind
+func exhaustiveHistories(full bool) {
+	payloads := [][]byte{[]byte("ab"), {}}
+	var variants []Push
+	for _, data := range payloads {
+		other := append(append([]byte(nil), data...), 'z')
+		good := Push{MT: mediaTypes[0], DG: digestFor("sha256", data), SZ: int64(len(data))}
+		one := func(d []byte) []Ev {
+			if len(d) == 0 {
+				return nil
+			}
+			return []Ev{{Kind: 'D', Data: d}}
+		}
+		mk := func(f func(p *Push)) {
+			p := good
+			p.Script = one(data)
+			f(&p)
+			variants = append(variants, p)
+		}
+		mk(func(p *Push) {})                                                                                         // good
+		mk(func(p *Push) { p.Script = []Ev{{Kind: 'Z'}}; p.Script = append(p.Script, one(data)...); p.Comb = true }) // 0-byte read, data+EOF
+		mk(func(p *Push) { p.Script = one(other) })                                                                  // trailing byte
+		mk(func(p *Push) { p.Script = nil })                                                                         // empty reader
+		mk(func(p *Push) { p.Script = append(one(data), Ev{Kind: 'F'}) })                                            // error after the data
+		mk(func(p *Push) { p.Script = append([]Ev{{Kind: 'F'}}, one(data)...) })                                     // error first
+		mk(func(p *Push) { p.DG = digestFor("sha256", other) })                                                      // wrong digest
+		mk(func(p *Push) { p.SZ++ })                                                                                 // size + 1
+		mk(func(p *Push) { p.SZ = -1 })                                                                              // negative
+		mk(func(p *Push) { p.DG = "sha1:da39a3ee5e6b4b0d3255bfef95601890afd80709" })                                 // unsupported
+		mk(func(p *Push) { p.DG = digestFor("sha512", data) })                                                       // other algorithm, good
+	}
+	kinds := []string{"mem", "oci", "file", "lim2", "olim1", "fileD", "fileI", "fileF", "ocistore", "memstore"}
+	names := []string{"", "a", "./a", "b"}
+	for ki, kind := range kinds {
+		for i, p1 := range variants {
+			for j, p2 := range variants {
+				if !full && (i+j+ki)%7 != 0 { // quick tier: a seventh of the pairs
+					continue
+				}
+				a, c := p1, p2
+				if strings.HasPrefix(kind, "file") {
+					a.Name = names[(i+j)%len(names)]
+					c.Name = names[(i*3+j+1)%len(names)]
+				}
+				run.Count("gen:exhaustive-history")
+				runCase(&Case{Op: "ST", Kind: kind, Pushes: []Push{a, c}})
+			}
+		}
+	}
+}
+
 func main() {
 	run = common.Start("C05")
 	defer run.Finish()
@@ -1792,11 +2023,16 @@ func main() {
 	}
 	r := run.Rand
 	exhaustive(run.Scale(4, 8))
-	n := run.Scale(8000, 200000)
+	exhaustiveHistories(run.Thorough())
+	n := run.Scale(8000, 350000)
 	for i := 0; i < n; i++ {
 		switch k := r.Intn(20); {
 		case k < 3:
-			runCase(genSingle(r, "RA"))
+			c := genSingle(r, "RA")
+			if r.Chance(1, 3) {
+				c.Op = "FA"
+			}
+			runCase(c)
 		case k < 6:
 			runCase(genSingle(r, "CB"))
 		case k < 8:
@@ -1816,10 +2052,10 @@ func main() {
 	for i := 0; i < run.Scale(10, 100); i++ {
 		runCase(genBig(r, common.Pick(r, []string{"oci", "file", "mem"})))
 	}
-	for i := 0; i < run.Scale(400, 6000); i++ {
+	for i := 0; i < run.Scale(400, 10000); i++ {
 		runCase(genConcurrent(r, common.Pick(r, []string{"oci", "oci", "mem", "lim1000000", "file", "file", "ocistore"})))
 	}
-	for i := 0; i < run.Scale(700, 15000); i++ {
+	for i := 0; i < run.Scale(700, 25000); i++ {
 		runCase(genProxy(r))
 	}
 	for i := 0; i < run.Scale(300, 15000); i++ {
@@ -1848,11 +2084,11 @@ func main() {
 
 	// coverage floors: a stream that produced nothing is a broken check, not a pass
 	var missing []string
-	for _, k := range []string{"op:RA", "op:CB", "op:VR", "op:ST", "op:CC", "op:PF", "op:PX", "op:SX", "op:CW",
+	for _, k := range []string{"op:RA", "op:FA", "op:CB", "op:VR", "op:ST", "op:CC", "op:PF", "op:PX", "op:SX", "op:CW",
 		"store:mem", "store:lim", "store:oci", "store:olim", "store:file", "store:ocistore", "store:memstore",
 		"store:fileD", "store:fileC", "store:fileI", "store:fileF",
 		"input:good", "input:good+trailing", "input:bad-digest", "input:digest-mismatch", "input:negative-size", "input:short-or-failed",
-		"cw:fail:fault", "cw:short:fault", "judged:cc-membership", "gen:alias-name", "gen:huge-size", "gen:blob>1MiB"} {
+		"cw:fail:fault", "cw:short:fault", "judged:cc-membership", "gen:alias-name", "gen:huge-size", "gen:blob>1MiB", "gen:exhaustive-history", "judged:inflight", "gen:reader-continues-after-eof"} {
 		if run.Dist[k] == 0 {
 			missing = append(missing, k)
 		}
